@@ -39,15 +39,20 @@ func sendCallee(call *ssa.Call) *ssa.Function { return TransparentCallee(call) }
 // in the caller and called directly, or a same-package helper that is not on the reference list
 // (known_funcs.txt), i.e. one the rules have never seen. nil for every other call.
 func TransparentCallee(call *ssa.Call) *ssa.Function {
-	if mc, ok := call.Call.Value.(*ssa.MakeClosure); ok {
+	return transparentCalleeOf(&call.Call, call.Parent())
+}
+
+// transparentCalleeOf works on any call site (call, go, defer).
+func transparentCalleeOf(cc *ssa.CallCommon, parent *ssa.Function) *ssa.Function {
+	if mc, ok := cc.Value.(*ssa.MakeClosure); ok {
 		if f, ok := mc.Fn.(*ssa.Function); ok {
 			return f
 		}
 	}
 	// a closure kept in a local variable
-	if !call.Call.IsInvoke() {
-		if _, isFn := call.Call.Value.(*ssa.Function); !isFn {
-			for _, src := range Sources(call.Call.Value) {
+	if !cc.IsInvoke() {
+		if _, isFn := cc.Value.(*ssa.Function); !isFn {
+			for _, src := range Sources(cc.Value) {
 				if mc, ok := src.(*ssa.MakeClosure); ok {
 					if f, ok := mc.Fn.(*ssa.Function); ok {
 						return f
@@ -56,7 +61,7 @@ func TransparentCallee(call *ssa.Call) *ssa.Function {
 			}
 		}
 	}
-	if h := call.Call.StaticCallee(); h != nil && len(h.Blocks) > 0 && call.Parent() != nil && h.Package() == call.Parent().Package() && h.Parent() == nil && !KnownFunc(FuncQName(h)) {
+	if h := cc.StaticCallee(); h != nil && len(h.Blocks) > 0 && parent != nil && h.Package() == parent.Package() && h.Parent() == nil && !KnownFunc(FuncQName(h)) {
 		return h
 	}
 	return nil
